@@ -53,7 +53,7 @@ REQUIRED_FEATURES = {
 }
 BUDGET = {
     "quick": {"cases": 12000, "seconds": 36},
-    "thorough": {"cases": 150000, "seconds": 600},
+    "thorough": {"cases": 300000, "seconds": 660},
 }
 
 ST = metrics.SampleType
@@ -88,6 +88,15 @@ def make_cfg(root, race_id, spec=None):
     add("race", "user.tags", spec["user_tags"] if spec else {})
     add("reporting", "datastore.type", "in-memory")
     return cfg
+
+
+def make_race(cfg, trk, ch):
+    """What metrics.create_race() builds, without probing git for Rally's own revision on every case."""
+    return metrics.Race(
+        "2.10.0", "verif00", cfg.opts("system", "env.name"), cfg.opts("system", "race.id"), cfg.opts("system", "time.start"), cfg.opts("race", "pipeline"),
+        cfg.opts("race", "user.tags"), trk, cfg.opts("track", "params"), ch, cfg.opts("mechanic", "car.names"), cfg.opts("mechanic", "car.params"),
+        cfg.opts("mechanic", "plugin.params"),
+    )
 
 
 def build_track(spec):
@@ -172,7 +181,7 @@ def run_real(spec, root, race_id):
         store = metrics.metrics_store(cfg, read_only=False, track=trk.name, challenge=ch.name)
         store.bulk_add(memento)
         store.flush()
-    race = metrics.create_race(cfg, trk, ch)
+    race = make_race(cfg, trk, ch)
     results = metrics.calculate_results(store, race)
     store.close()
     race.add_results(results)
@@ -556,7 +565,7 @@ def store_case_problems(ctx, env, spec):
 def structure_case_problems(ctx, env, d, names):
     cfg = make_cfg(env.root, env.next_id())
     trk = track.Track(names[0], challenges=[track.Challenge(names[1], default=True)])
-    race = metrics.create_race(cfg, trk, trk.challenges[0])
+    race = make_race(cfg, trk, trk.challenges[0])
     race.add_results(metrics.GlobalStats(copy.deepcopy(d)))
     return roundtrip_problems(ctx, race, cfg)
 
@@ -686,7 +695,7 @@ def store_case(ctx, env, rng, idx, explicit=None):
         spec, size = explicit, "explicit"
     else:
         r = rng.random()
-        size = "big" if r < (0.012 if ctx.tier == "quick" else 0.02) else ("medium" if r < 0.05 else "small")
+        size = "big" if r < 0.03 else ("medium" if r < 0.10 else "small")
         spec = gen.gen_store_spec(rng, size)
     feats, per = spec_features(spec)
     probs = store_case_problems(ctx, env, spec)
@@ -755,9 +764,10 @@ def replay(ctx, rec):
 
 
 MANIFEST = {
-    "text": "Exploration: ~6*10^3 (quick) / ~10^5 (thorough) generated metric-record multisets are written to a real InMemoryMetricsStore, summarised by the real "
-    "GlobalStatsCalculator and compared number by number with reference statistics (fractions/statistics) over the normal samples; each race is stored with the real "
-    "FileRaceStore and read back through find_by_race_id and list(). Holds on the multisets generated, not beyond.",
+    "text": "Exploration: up to 1.2*10^4 (quick) / 3*10^5 (thorough) cases (time-capped). Three in four are generated metric-record multisets written to a real "
+    "InMemoryMetricsStore, summarised by the real GlobalStatsCalculator and compared number by number with reference statistics (fractions/statistics) over the normal "
+    "samples; each race - and, in the remaining cases, a generated result structure - is stored with the real FileRaceStore and read back through find_by_race_id and "
+    "list(). Holds on the multisets generated, not beyond.",
     "note": "Trusts the reference (rank p/100*(n-1), linear interpolation, 40 lines), Python's statistics/fractions/json modules, and the assumption that a task's samples "
     "are the records carrying its name and operation type.",
     "technique": "runtime monitor: reference-model oracle over generated record multisets + structural round-trip equality through the real race store",
